@@ -37,38 +37,40 @@ fn families(id: &str, tier: Tier) -> Vec<BFamily<'static>> {
   let mut add = |name: &'static str, layout: Layout, cfg: EnvCfg| f.push(BFamily { name, layout, cfg });
   match id {
     "C10" => {
-      // no tablet events, no Special mappings: every batching of every history, deviations 0..=bound
-      let (l, d) = if q { (5, 1) } else { (7, 2) };
+      // no Special mappings: every batching of every history, deviations 0..=bound; tablet events interleaved in two families
+      let (l, d) = if q { (5, 1) } else { (6, 2) };
       add("plain A->B over {A,C}", l_plain(), cfg(&[A, C], l, 0, d, 0, 30));
       add("chord CAPSLOCK->[], CAPSLOCK+J->LEFT over {CAPSLOCK,J}", l_chord(), cfg(&[CAPSLOCK, J], l, 0, d, 0, 30));
-      add("no-repeat A->A Disabled, B->B over {A,B,LEFTSHIFT}", l_norepeat(), cfg(&[A, B, LEFTSHIFT], if q { 5 } else { 6 }, 0, d, 0, 30));
+      add("no-repeat A->A Disabled, B->B over {A,B,LEFTSHIFT}", l_norepeat(), cfg(&[A, B, LEFTSHIFT], if q { 5 } else { 6 }, 0, if q { 1 } else { 1 }, 0, 30));
+      if !q { add("plain A->B over {A,C}, longer histories", l_plain(), cfg(&[A, C], 8, 0, 1, 0, 30)); }
       // the quantifier also interleaves tablet-switch events and puts end-of-device anywhere, on either device
-      let mut ct = cfg(&[A], if q { 4 } else { 5 }, 2, d, 0, 30); ct.tablet_end = true;
+      let mut ct = cfg(&[A], if q { 4 } else { 5 }, 2, if q { 1 } else { 2 }, 0, 30); ct.tablet_end = true;
       add("plain A->B over {A} interleaved with up to 2 tablet events, either device may go away", l_plain(), ct);
       add("chord layout over {CAPSLOCK,J} interleaved with a tablet event", l_chord(), cfg(&[CAPSLOCK, J], if q { 4 } else { 5 }, 1, if q { 0 } else { 1 }, 0, 30));
     }
     "C11" => {
-      let (l, t, d) = if q { (4, 3, 1) } else { (5, 5, 2) };
+      let (l, t, d) = if q { (4, 3, 1) } else { (5, 4, 1) };
       add("repeat B->B Special{[LEFTCTRL,C],130,30}, A->A Disabled over {A,B,LEFTCTRL}", l_repeat(), cfg(&[A, B, LEFTCTRL], l, 0, d, t, 30));
+      if !q { add("same layout, deviation bound 2", l_repeat(), cfg(&[A, B, LEFTCTRL], 4, 0, 2, 3, 30)); add("same layout over {B,LEFTCTRL}, up to 6 time-outs", l_repeat(), cfg(&[B, LEFTCTRL], 4, 0, 1, 6, 30)); }
       add("same layout with up to two tablet events", l_repeat(), cfg(&[B, LEFTCTRL], l, 2, if q { 0 } else { 1 }, if q { 2 } else { 3 }, 30));
       add("B->D Special{[E],130,30} over {B,D}: the output key of the repeating mapping is pressed physically", l_out_key(), cfg(&[B, D], l, 0, if q { 0 } else { 1 }, t, 30));
-      add("three Special mappings (chords [LEFTCTRL,C], [C,LEFTCTRL,B], []) over {B,J,K}", l_two_repeats(), cfg(&[B, J, K], l, 0, if q { 0 } else { 1 }, t, 10));
-      if !q {
-        add("super-dvorak repeat keys over {K,J,LEFTCTRL}", l_super_dvorak(), cfg(&[K, J, LEFTCTRL], 3, 0, 1, 4, 30));
-      }
+      add("three Special mappings (chords [LEFTCTRL,C], [C,LEFTCTRL,B], []) over {B,J,K}", l_two_repeats(), cfg(&[B, J, K], if q { 4 } else { 5 }, 0, if q { 0 } else { 1 }, if q { 3 } else { 3 }, 10));
+      if !q { add("super-dvorak repeat keys over {K,J,LEFTCTRL}", l_super_dvorak(), cfg(&[K, J, LEFTCTRL], 4, 0, 1, 4, 30)); }
     }
     "C12" => {
-      let (l, d) = if q { (4, 1) } else { (6, 2) };
+      let (l, d) = if q { (4, 1) } else { (5, 2) };
       let mut c1 = cfg(&[A], l, 3, d, 0, 30); c1.tablet_end = !q;
       add("plain A->B over {A} with up to 3 tablet events", l_plain(), c1);
-      add("chord layout over {CAPSLOCK,J} with up to 2 tablet events", l_chord(), cfg(&[CAPSLOCK, J], l, 2, d, 0, 30));
-      add("repeat layout over {B,LEFTCTRL} with up to 2 tablet events and time-outs", l_repeat(), cfg(&[B, LEFTCTRL], l, 2, d, 2, 30));
+      add("chord layout over {CAPSLOCK,J} with up to 2 tablet events", l_chord(), cfg(&[CAPSLOCK, J], l, 2, if q { 1 } else { 1 }, 0, 30));
+      add("repeat layout over {B,LEFTCTRL} with up to 2 tablet events and time-outs", l_repeat(), cfg(&[B, LEFTCTRL], l, 2, if q { 1 } else { 1 }, 2, 30));
+      if !q { add("plain A->B over {A}, longer histories with up to 3 tablet events", l_plain(), cfg(&[A], 7, 3, 1, 0, 30)); }
     }
     "C20" => {
-      let (l, d) = if q { (4, 1) } else { (5, 2) };
+      let (l, d) = if q { (4, 1) } else { (5, 1) };
       add("plain A->B over {A} with a tablet event", l_plain(), cfg(&[A], l, 1, d, 0, 30));
       add("chord layout over {CAPSLOCK,J}", l_chord(), cfg(&[CAPSLOCK, J], l, 1, d, 0, 30));
       add("repeat layout over {B,LEFTCTRL} with time-outs and a tablet event", l_repeat(), cfg(&[B, LEFTCTRL], l, 1, d, 2, 30));
+      if !q { add("plain A->B over {A,C}, deviation bound 2", l_plain(), cfg(&[A, C], 3, 1, 2, 0, 30)); }
     }
     _ => unreachable!(),
   }
